@@ -377,6 +377,25 @@ func (sr *SearchRecovery) RecoverFromSearchFailure(
 		WithSuggestions(suggestions...)
 }
 
+// RecoverWithLimit is RecoverFromSearchFailure for callers that show the results to the user. The
+// fallback strategies return every match they find; the result limit in force applies to them
+// as it does to every other search path (a non-positive limit means the search default).
+func (sr *SearchRecovery) RecoverWithLimit(
+	query string,
+	originalErr error,
+	db *database.Database,
+	limit int,
+) ([]database.SearchResult, error) {
+	results, err := sr.RecoverFromSearchFailure(query, originalErr, db)
+	if limit <= 0 {
+		limit = 10 // the default SearchUniversal applies
+	}
+	if len(results) > limit {
+		results = results[:limit]
+	}
+	return results, err
+}
+
 // basicKeywordSearch performs a simple keyword-based search
 func (sr *SearchRecovery) basicKeywordSearch(query string, db *database.Database) ([]database.SearchResult, error) {
 	// Simple implementation - just look for exact matches in command names
